@@ -49,6 +49,18 @@ CHECKS = {
   'assignment histories on Transform2D/3D instances with shared listeners under five listener orders; each notification is compared with the property read inside the callback and right after the assignment; cross-event and cross-transform silence; constructor values and independence of defaults. Little schedule dimension, no faults (stated weakness).',
   'trusted: exact arithmetic on the chosen values; dispatching stays enabled',
   'deterministic simulation: seeded assignment/listener histories, delivery log vs. read-back'),
+ 'C11': ('restree', 'exploration', 'DESIGN.md 3/C11',
+  'histories of __setitem__ with plain/composite keys (on the root or any reachable sub-map; handles, empty/pre-populated/layered maps), clear and layering; after every operation the whole real tree including every handle layer is compared with a nested-dict model, back-links are walked for every reachable node (implicit intermediates included), and every path over the alphabet is queried through get and [] (default exactly when KeyError).',
+  'trusted: TreeModel; each value object inserted at most once; depth <= 4',
+  'deterministic simulation: seeded op histories vs. reference model, reachability sweep of back-links'),
+ 'C12': ('restree', 'exploration', 'DESIGN.md 3/C12',
+  'counting handles with 13 kinds of loaded values reached through every access path (call, root[], submap[], chained [], get()(), static item/attr/get, Loop.switch) interleaved with clear(); loads scripted to raise on their n-th call are the injected I/O fault (narrow relaxation: the failing access propagates the error, cached stays false); per-epoch load ledger and identity of every returned object.',
+  'trusted: load ledger model; the failure path of Loop.switch is not exercised (unspecified)',
+  'deterministic simulation: seeded access/clear interleavings with injected load failures, per-epoch load ledger'),
+ 'C17': ('restree', 'exploration', 'DESIGN.md 3/C17',
+  'weakest level claimed: snapshots are taken at random points of C11-style histories (identifier, keyword, non-identifier and empty names; layered handles) and compared path by path, again after further mutations of the map; setattr/delattr attempted at every level. No schedule or fault dimension exists for this property; it rides on the restree histories as an invariant.',
+  'trusted: snapshot model (copy of the tree model at the instant of the snapshot); known finding K3 (__x names) avoided by the generator and re-demonstrated on every run',
+  'deterministic simulation (invariant riding on tree histories): snapshot vs. model path by path'),
 }
 NA = {
  'C18': 'pure arithmetic on immutable tuples: no state, schedule, clock, I/O or fault for a simulator to decide (DESIGN.md section 3, C18)',
